@@ -46,6 +46,51 @@ CLAIMS = {
             'C09.c hunting loops clamp the running index on every continuing path; C09.d Set_Prefactor/Multiply write only the prefactor, no query member writes '
             'a field, no mutable/static members, no user-declared copy/move',
             'bit-identity of floating-point results (follows from equal indices), the performance heuristic fabs(j-jLast)<10'),
+    'C03': ('parameter-contract checking of the recursive helper by symbolic substitution (provenance of samples), path conditions on a finite grid',
+            'C03.a accepted panel equals Boole\'s rule (7,32,12,32,7)/90 given the coarse Simpson estimate; C03.b the parameter contract (fa=F(a), fb=F(b), fc=F(mid), '
+            'S=Simpson(a,b)) is preserved at both recursive call sites and established by the entry for both limit orientations; C03.c epsilon/2, depth-1, '
+            'acceptance |S2-S|<=15 epsilon (absolute) or depth<=0; C03.d two evaluations per activation at the quarter points, three in the entry, two recursive '
+            'calls (hence <= 2^(depth+2)+1 evaluations, all convex combinations of a,b); C03.e a==b short-cut before any evaluation, sign applied exactly once, epsilon only through |epsilon|',
+            'the 4*epsilon a-posteriori bound for estimator-regular integrands (an analytic statement about the integrand class); rounding'),
+    'C05': ('structural dominance rules on the elimination loop nest + symbolic summary of the cofactor expansion',
+            'C05.a every elimination ratio W[j][i]/W[i][i] is preceded, in every sweep and unconditionally, by a magnitude scan over the rows below the diagonal and an exchange '
+            'of whole rows; C05.b cofactor expansion: sum over all columns of (-1)^j a[0][j] det(Sub_Matrix(0,j)) (or a running sign flipped on every path), 1x1 and 2x2 closed forms, '
+            'Sub_Matrix deletes the given row and column; C05.c Invertible <=> Square && Determinant()!=0 exactly, Inverse/Determinant exit iff not square (C10 tables), '
+            'the remaining exit is a zero pivot after selection; C05.d augmentation [M|I], final row scaling, extraction of the right half',
+            'the n*kappa*eps accuracy bound, multiplicativity/transpose invariance of the computed determinant to rounding'),
+    'C13': ('path enumeration of the dispatcher with the ordering helper inlined; lambda-nest wiring analysis; state census',
+            'C13.a for each of the six method names and both limit orientations the result is s*integrator(f, lo, hi, ...) with ordered limits and s=-1 exactly when exchanged; '
+            'equal limits give 0; the ordering helper (which assigns the sign) is used at most once per sign variable; the nested 2D/3D branch accepts the same names; '
+            'C13.b level k of the 2D/3D nests integrates its own lambda parameter over the k-th limit pair and the integrand receives the variables in axis order; '
+            'C13.c the spherical wrapper integrates r^2 f(Spherical_Coordinates(r, acos c, phi)) (or an explicit vector equal to it) with limits in (r, cos, phi) order; '
+            'C13.d Monte-Carlo front ends build {lower..,upper..} and pass args[k] in position k; C13.e no argument-dependent static state in the dispatchers',
+            'the accuracy figures per method (boost quadrature internals), exact negation under limit reversal to rounding'),
+    'C14': ('definite-assignment-before-read analysis of every static object under the entry constants (with callee write-before-read summaries), '
+            'engine provenance, affine-combination rule on region bounds',
+            'C14.a every function-local static and namespace-scope mutable object in the closure of Integrate_MC is assigned before it is read on every path (entry constants '
+            'init=0, itmx=5, nprn=-1 taken from the call site; arrays at array granularity); C14.b each integrator seeds a local engine from a local random_device and every '
+            'draw in its closure receives that engine; no static engine/distribution/seed source; C14.c/d every value combining two region entries is a width or an affine '
+            'point c_lo*lower+c_hi*upper (c_lo+c_hi=1) of ONE axis; Random_Point, MC_Volume, Vegas, Miser and the 2D/3D front ends agree on the layout; C14.e plain MC returns '
+            'sum(volume*f)/ncall, Miser MC_Volume*average',
+            'six-standard-error accuracy, Vegas for ndim>10, bit-identical reproducibility for a fixed seed (no seed is observable statically), element-level coverage of array initialisation loops'),
+    'C16': ('symbolic matrix/vector extraction and polynomial identity testing modulo trigonometric and unit-axis ideals (Groebner reduction); divisor zero-set vs guard coverage',
+            'C16.a all nine entries of the 3D rotation equal Rodrigues\' formula for the normalised axis (and hence R^T R=I, det R=1, R n=n, re-derived); C16.b 2D rotation; '
+            'C16.c plain spherical coordinates; C16.d axis-relative spherical coordinates satisfy |v|^2=r^2, v.e=r cos(theta), dv/dphi.(e x v)=r^2 sin^2(theta) modulo the ideal; '
+            'C16.e every real zero of the divisor sqrt(1-e3^2) on [-1,1] is excluded by the guards and each pole case returns a vector with the same three identities; C16.f Angle',
+            'loss of accuracy for axes within rounding of +-z beyond the exact poles, orthogonality to rounding'),
+    'C17': ('path truth tables, symbolic oddness/series identities, one-iteration summary of Rybicki\'s sum, closed-form coefficient tables evaluated on sample (l,m)',
+            'C17.a Sign/Sign(x,y)/StepFunction tables; C17.b Relative_Difference symmetric, its zero divisor a=b=0 excluded and mapped to 0, Floats_Equal; '
+            'C17.c Dawson odd by construction, Round odd; C17.d Erfi composition, Inv_Erf bracket/tolerance/integrand; C17.e Dawson Maclaurin coefficients, the series '
+            'remainder bound at the switch point (<=2e-7 absolute, <=1e-6 relative), Rybicki recurrences and constants; C17.f all 69 (component, dl, dm) cases of the Y and Psi '
+            'coefficient tables against the closed forms (Psi = kappa*Y), driver loops visit lhat in {l-1,l+1}, mhat in {m-1,m,m+1} with |mhat|<=lhat at several (l,m) incl. sectoral',
+            'Dawson/Erfi accuracy of the large-argument sum, Round\'s half-unit property near powers of ten, accuracy of Inv_Erf beyond its tolerance wiring'),
+    'C19': ('symbolic comprehension summaries of the grid/list loops, finite-table evaluation of the Sub_List index prologue, statement-order rule for Median',
+            'C19.a Linear_Space/Log_Space elements follow the definition (last element is max identically) and the degenerate-case predicate; C19.b Transpose_Lists, Lists_Equal, '
+            'List_Contains, Find_Indices, Combine_Lists, Flatten_List by schema; Sub_List copies exactly the clipped inclusive range inside the list on the complete table of '
+            '(i1,i2,size); C19.c mean, variance (N-1), standard deviation, weighted average and its equal-weight reduction (N=4 symbolic data), Median selects each central element by '
+            'its own nth_element and reads it directly afterwards',
+            'Workload_Distribution balance, Range enumeration and Locate_Closest_Location ties (integer relations between run-time arguments: exhaustive enumeration is another family), '
+            'monotonicity and equal spacing of the grids to rounding'),
 }
 
 NOT_BUILT = 'check not built yet (framework under construction; DESIGN.md section 3 describes the planned rules)'
